@@ -19,6 +19,7 @@ import (
 	"reflect"
 	"strconv"
 	"strings"
+	"sync"
 	"sync/atomic"
 	"time"
 	"unsafe"
@@ -40,6 +41,9 @@ import (
 // PersistOptions wraps all configurations that need to persist to storage and
 // allows to access them safely.
 type PersistOptions struct {
+	// persistMu makes taking the snapshot of all sections and writing it one step: two overlapping
+	// Persist calls could otherwise store the older snapshot last and drop an accepted change.
+	persistMu sync.Mutex
 	// configuration -> ttl value
 	ttl             *cache.TTLString
 	schedule        atomic.Value
@@ -560,6 +564,8 @@ func (o *PersistOptions) DeleteLabelProperty(typ, labelKey, labelValue string) {
 
 // Persist saves the configuration to the storage.
 func (o *PersistOptions) Persist(storage *core.Storage) error {
+	o.persistMu.Lock()
+	defer o.persistMu.Unlock()
 	cfg := &Config{
 		Schedule:        *o.GetScheduleConfig(),
 		Replication:     *o.GetReplicationConfig(),
